@@ -224,6 +224,11 @@ class Program:
         if n.startswith('repo:'):
             m = self.module(n[5:])
             if m is None:
+                # a compiled extension module (Cython): its functions exist only as assumed contracts
+                from .contracts import CONTRACTS
+                q = '%s.%s' % (n[5:], attr)
+                if any(k == q or k.startswith(q + '#') for k in CONTRACTS):
+                    return FuncV(q)
                 raise Unsupported('repo module %s not found' % n)
             if attr in m.functions:
                 return FuncV(m.functions[attr].qname)
